@@ -669,8 +669,9 @@ func (fr *frame) callSpecBuiltin(fn *ssa.Function, args []*Val, resT types.Type,
 	case "NoLocksHeld":
 		h := u.heapGet(st, "GH:locks", "(Array Int Int)")
 		return &Val{t: fmt.Sprintf("(= %s ((as const (Array Int Int)) 0))", h)}
-	case "sameSlice", "sameCerts", "sameElems", "sameStrings", "sameBytes", "sameAttrs", "sameChain":
-		return &Val{t: eq(args[0].t, args[1].t)}
+	case "sameSlice", "sameCerts", "sameElems", "sameStrings", "sameBytes", "sameAttrs", "sameChain", "sameFunc", "sameCipherFunc":
+		// identity of the two values (slice headers, or function values - which Go itself cannot compare)
+		return &Val{t: eq(fr.valTerm(args[0], st), fr.valTerm(args[1], st))}
 	case "ns":
 		return args[0]
 	case "nsToTime":
